@@ -547,7 +547,7 @@ def main(prop):
     ck = Check(prop)
     ck.trusted = ["Lean 4.33.0 kernel", "axioms: propext, Classical.choice, Quot.sound (audited)", "correspondence harness + JSON driver",
                   "tokenisation of GFA text (strip/split) and of path strings (re.findall) modelled at token level: covered by correspondence only"]
-    ck.lean_build((["Gaftools.Props.C15Hist", "Gaftools.Props.C15Bicc", "Gaftools.Props.C15Bicc2", "Gaftools.Props.C15Extra"] if prop == "C15" else ["Gaftools.Props.%s" % prop]) + ["Gaftools.Props.TieA", "Gaftools.Props.TieA5"])
+    ck.lean_build((["Gaftools.Props.C15Hist", "Gaftools.Props.C15Bicc", "Gaftools.Props.C15Bicc2", "Gaftools.Props.C15Extra"] if prop == "C15" else ["Gaftools.Props.%s" % prop, "Gaftools.Props.TextLayer"]) + ["Gaftools.Props.TieA", "Gaftools.Props.TieA5"])
     ck.audit("%s.lean" % prop)
     tmp = tempfile.mkdtemp(prefix="gtv-graph-")
     try:
@@ -555,6 +555,10 @@ def main(prop):
             ck.assumptions = ["unique segment ids", "steps over nodes of the graph (an unknown first node of a pair raises KeyError in the tool)", "sequences over ACGT for the reverse-complement involution"]
             ck.rule = "random GFAs of 1-6 nodes (all four link orientations, self-links, both-end declarations, dangling links, shuffled lines, numeric ids, gzip) x 10 step sequences (55% walks following links forwards/mirrored, some broken, rest arbitrary) + each reversed; library call and find_path file mode; non-trivial = >= 2 steps over nodes of the graph"
             c14(ck, tmp)
+            # the string level of extract_path / find_path (tokenisation, first-character test, strip() of file lines, argument vs
+            # file mode): Model/TextLayer.lean, theorems Props/TextLayer.lean (Audit/C14_extra.lean)
+            import p_textlayer
+            p_textlayer.c14_strings(ck, tmp, 2400 if ck.tier == "quick" else 24000)
         elif prop == "C15":
             ck.assumptions = ["unique segment ids; histories only use calls that do not raise (links between existing nodes, deletion of existing nodes)",
                               "biccs: the graph is connected (the library's caller passes one component)"]
